@@ -386,8 +386,8 @@ def instances(tier, seed):
         combos = [(a, p) for a in range(na) for p in prunes]
         if tier == 'quick' and len(combos) > 24:
             combos = rnd.sample(combos, 24)
-        elif len(combos) > 600:
-            combos = rnd.sample(combos, 600)
+        elif len(combos) > 200:
+            combos = rnd.sample(combos, 200)
         for i, (a, p) in enumerate(combos):
             for aug in (False, True):
                 yield 'h_parse_valid', dict(width=width, keys=keys, assign=a, aug=aug, prune=list(p), via=('parse', 'wrapper')[i % 2])
